@@ -3,7 +3,11 @@
 import json, os, subprocess, sys
 
 V = os.path.dirname(os.path.dirname(os.path.abspath(__file__)))
+import glob
 checks = json.load(open(os.path.join(V, "checks.json")))
+for _f in sorted(glob.glob(os.path.join(V, "checks.d", "*.json"))):
+    checks.update(json.load(open(_f)))
+checks = {k: v for k, v in checks.items() if k.startswith("C")}
 props = [json.loads(l) for l in open(os.path.join(V, "properties.jsonl"))]
 na_path = os.path.join(V, "not_applicable.json")
 na = json.load(open(na_path)) if os.path.exists(na_path) else {}
